@@ -192,11 +192,13 @@ def const_value(model, fi, e, depth=0):
     I = Interp(model, mod, {})
     try:
         env = {}
-        if fi is not None and getattr(fi, 'cls', None):
-            o = Obj(fi.cls.rsplit('.', 1)[1])
-            o.qual = fi.cls
-            env['self'] = o
-        res = I.explore(lambda: I.materialise(I.ev(e, env)))
+
+        def thunk():
+            if fi is not None and getattr(fi, 'cls', None):
+                # `self.<table>`: the instance is built by the class's own constructor (tables filled in by a loop in __init__ are then complete)
+                env['self'] = I.construct(ClassRef(fi.cls.rsplit('.', 1)[1], fi.cls), [], {})
+            return I.materialise(I.ev(e, env))
+        res = I.explore(thunk)
     except Exception:
         raise ValueError('not a constant display: ' + src(e))
     if len(res) != 1 or res[0][0][0] != 'return':
@@ -254,9 +256,13 @@ def _const_value(model, fi, e, depth=0):
                     return const_value(model, _ModuleOnly(ci.module), st.value, depth + 1)
             init = model.funcs.get(k + '.__init__')
             if init is not None:
-                for n in walk_own(init.node):
-                    if isinstance(n, ast.Assign) and any(isinstance(t, ast.Attribute) and src(t.value) == 'self' and t.attr == e.attr for t in n.targets):
-                        return const_value(model, init, n.value, depth + 1)
+                stores = [n for n in walk_own(init.node) if isinstance(n, ast.Assign) and any(isinstance(t, ast.Attribute) and src(t.value) == 'self' and t.attr == e.attr for t in n.targets)]
+                touched = [n for n in walk_own(init.node) if (isinstance(n, ast.Subscript) and src(n.value) == 'self.' + e.attr and isinstance(n.ctx, (ast.Store, ast.Del))) or
+                           (isinstance(n, ast.Call) and isinstance(n.func, ast.Attribute) and src(n.func.value) == 'self.' + e.attr and n.func.attr in ('update', 'append', 'add', 'extend', 'setdefault', 'pop'))]
+                if len(stores) == 1 and not touched:
+                    return const_value(model, init, stores[0].value, depth + 1)
+                if stores:
+                    raise ValueError('self.%s is filled in by statements' % e.attr)
         raise ValueError('self.%s is not a constant display' % e.attr)
     raise ValueError('not a constant display: ' + src(e))
 
